@@ -297,3 +297,6 @@ func HashStr(s string) uint64 {
 	}
 	return h
 }
+
+// PickFloat picks one of xs.
+func (r *R) PickFloat(xs ...float64) float64 { return xs[r.Intn(len(xs))] }
